@@ -195,6 +195,7 @@ func (c *comp) rebuild(plan *simkit.Plan) {
 	}
 	c.d.stamp = 1_000_000_000
 	c.d.stampNanos = 0
+	c.d.backNanos = 0
 	for _, op := range plan.Ops {
 		if op.Actor == "init" {
 			c.d.userOp(op)
